@@ -93,6 +93,12 @@ func (c *FnCtx) callSiteClauses(frame *Frame, st *State, in ssa.Instruction, key
 			env.vars["arg0"] = c.val(st, snd.Chan)
 			env.vars["arg1"] = c.val(st, snd.X)
 		}
+		if cc != nil && cc.IsInvoke() {
+			// an interface method call: recv is the interface value the method is invoked on
+			if _, taken := env.vars["recv"]; !taken {
+				env.vars["recv"] = c.val(st, cc.Value)
+			}
+		}
 		if cc != nil {
 			for i, av := range cc.Args {
 				n := fmt.Sprintf("arg%d", i)
